@@ -920,13 +920,109 @@ def compare_fields(c, run, ref):
 
 
 # --------------------------------------------------------------------------------------
+# line coverage of the implementation functions the model claims to cover (tools/linecov.py)
+# --------------------------------------------------------------------------------------
+COV_ALLOW = ()      # no line of the covered functions may stay unreached: the two ValueError paths of
+#                     run_feedforward_filter are exercised by error_probes()
+
+
+def cov_functions():
+    """the ORIGINAL function objects (call before any wrapper is installed)"""
+    from pyins import filters, kalman
+    return {'filters.run_feedforward_filter': filters.run_feedforward_filter,
+            'filters._initialize_covariance': filters._initialize_covariance,
+            'filters._compute_error_propagation_matrices': filters._compute_error_propagation_matrices,
+            'filters._compute_feedforward_result': filters._compute_feedforward_result,
+            'filters._interpolate_pva': filters._interpolate_pva,
+            'kalman.correct': kalman.correct,
+            'kalman.compute_process_matrices': kalman.compute_process_matrices}
+
+
+def corpus():
+    """fixed cases, run first, that reach every branch of the covered functions whatever the seed:
+    default models / measurements=None / no increments; measurements=[]; scale-misalignment models with
+    increments; a sensor without any stamp in the span (innovation table without rows) next to sensors with
+    stamps; both altitude modes; nominal = truth / computed."""
+    ep = [512, 528, 544, 560, 576]
+    none = dict(bias=[0, 0, 0], walk=[0, 0, 0], noise=[0, 0, 0], sm=[0] * 9)
+    full = dict(bias=[1, 1, 1], walk=[1, 0, 1], noise=[1, 1, 0], sm=[1, 0, 0, 0, 1, 0, 1, 0, 1])
+    bias = dict(bias=[1, 0, 1], walk=[0, 0, 0], noise=[0, 1, 0], sm=[0] * 9)
+    common_ = dict(gscale=[1e-5, 1e-5, 1e-7, 1e-3], ascale=[1e-2, 1e-3, 1e-4, 1e-3], sig=[10.0, 1.0, 0.5, 2.0])
+
+    def sched(**k):
+        d = dict(filter='ff', epochs=ep, sensors=[], meas_mode='none', step=16, alt=True, increments=False,
+                 cats=['corpus'])
+        d.update(k)
+        return d
+    return [
+        dict(common_, sched=sched(), gm=none, am=none, msd=[], lever=[], nominal='truth', none_models=True),
+        dict(common_, sched=sched(meas_mode='empty', alt=False, increments=True, step=40), gm=full, am=bias,
+             msd=[], lever=[], nominal='computed', none_models=False),
+        dict(common_, sched=sched(meas_mode='list', increments=True, step=2,
+                                  sensors=[['Position', [530, 560]], ['NedVelocity', []], ['BodyVelocity', [100, 545]]]),
+             gm=bias, am=full, msd=[1.0, 0.3, 0.2], lever=[[0.5, -0.2, 0.3], None, None], nominal='truth',
+             none_models=False),
+        dict(common_, sched=sched(meas_mode='list', alt=False, increments=False, step=16,
+                                  sensors=[['NedVelocity', [512, 575]], ['Position', [9000 - 1000]]]),
+             gm=bias, am=none, msd=[0.3, 1.0], lever=[[0.1, 0.2, 0.3], None], nominal='computed', none_models=False),
+    ]
+
+
+def error_probes():
+    """the two documented ValueError paths of run_feedforward_filter.  Returns (problems, hit lines)."""
+    import linecov
+    from pyins import filters
+    problems = []
+    c = corpus()[1]
+    inp = build(c)
+    cov = linecov.LineCoverage(cov_functions())
+    with cov:
+        active = cov.active
+        try:
+            filters.run_feedforward_filter(inp['nominal'].iloc[:-1], inp['computed'].iloc[1:], *c['sig'])
+            problems.append("trajectories with different time indices are accepted")
+        except ValueError:
+            pass
+        try:
+            filters.run_feedforward_filter(inp['nominal'], inp['computed'], *c['sig'], gyro_model=inp['gyro_model'],
+                                           accel_model=inp['accel_model'])
+            problems.append("scale/misalignment models without `increments` are accepted")
+        except ValueError:
+            pass
+    return problems, {k: sorted(v) for k, v in cov.hit.items()}, active
+
+
+def cov_finish(r, cov, active):
+    if not active:
+        r.log("line coverage: sys.monitoring tool id not available, not measured")
+        r.coverage['code_lines'] = dict(measured=False)
+        return
+    summ, missing = cov.report(allow=COV_ALLOW)
+    r.coverage['code_lines'] = dict(measured=True, functions=summ, allowed_unreached=list(COV_ALLOW))
+    tot = sum(v['executable'] for v in summ.values())
+    got = sum(v['executed'] for v in summ.values())
+    r.log(f"line coverage of the modelled implementation functions: {got}/{tot} executable lines executed, "
+          f"{len(missing)} unexpected unreached")
+    if missing:
+        r.broken('correspondence', 'code line not exercised',
+                 "the generated cases never execute these lines of the code the model claims to cover: "
+                 + "; ".join(missing))
+
+
+# --------------------------------------------------------------------------------------
 # one case, end to end
 # --------------------------------------------------------------------------------------
 def _work(c):
     """Returns a json-able summary: status, trace problems, flow (for Coq), batch failures, worst ratio."""
     out = dict(status='ok', trace=[], fails=[], worst=0.0, flow=None, cond=1.0, residual=0.0, soft=0)
     try:
-        run = run_impl(c)
+        import linecov
+        cov = linecov.LineCoverage(cov_functions())
+        with cov:
+            measured = cov.active
+            run = run_impl(c)
+        if measured:
+            out['cov'] = {k: sorted(v) for k, v in cov.hit.items()}
         out['status'] = run['status']
         if run['status'] != 'ok':
             out['error'] = run.get('error')
@@ -1053,6 +1149,9 @@ def process(r, cases, label, max_report=3):
     nviol = nbroken = 0
     worst = r.coverage.setdefault('worst_ratio_observed_over_tolerance', 0.0)
     for c, o in zip(cases, results):
+        if o.get('cov') is not None and getattr(r, 'linecov', None) is not None:
+            r.linecov.merge(o['cov'])
+            r.linecov_measured = True
         s = c['sched']
         for cat in s.get('cats', []):
             dist[cat] += 1
@@ -1137,11 +1236,22 @@ def check(r):
     r.generate(['C11Gen'])       # traces _compute_feedforward_result (tools/reg/c11.py), validates, rewrites Gen/C11Gen.v
     r.prove('Props/C11.v')
     warm_up()
+    import linecov
+    r.linecov = linecov.LineCoverage(cov_functions())
+    r.linecov_measured = False
+    problems, hits, active = error_probes()
+    if active:
+        r.linecov.merge(hits)
+        r.linecov_measured = True
+    for pr in problems:
+        r.broken('correspondence', 'documented error path', pr)
+    process(r, corpus(), 'corpus')
     rng = random.Random(r.seed * 1000003 + 11)
     n = 200 if r.tier == 'quick' else 3000
     nmax = 10 if r.tier == 'quick' else 12
     cases = [gen_case(rng, nmax) for _ in range(n)]
     process(r, cases, 'random')
+    cov_finish(r, r.linecov, r.linecov_measured)
     r.coverage['distribution'] = dict(sorted(r.coverage['distribution'].items()))
     if r.tier == 'thorough':
         r.hygiene('Props/C11.v')
